@@ -10,6 +10,8 @@
 (*               calls, one of the signals in that order                   *)
 (*   refusal     NotImplemented exactly for methods other than __call__    *)
 (*               and for matmul                                            *)
+(*   casting     UFuncTypeError exactly when the dtype the loop computes   *)
+(*               may not be stored (same_kind) in the out array given      *)
 (*   contract    ValueError exactly when Ufunc!Admit refuses a result dtype *)
 (*   count / identity / class / dtype / metadata                           *)
 (*               the returned objects are what Ufunc!SigHandle says        *)
@@ -43,6 +45,15 @@ Failed(e) ==
     IN Ok(IF refused THEN InSeq(e.self, sigs) ELSE (sigs # <<>> /\ sigs[1] = e.self), "resolution")
        \cup Ok(r.ni = (e.result = "NotImplemented"), "refusal")
        \cup (IF r.ni \/ e.result = "NotImplemented" THEN {}
+             \* a result NumPy would not store into the out array (same_kind over the dtype
+             \* lattice, Ufunc!Fits) must make the call raise - and only such a result
+             \* (no statement where the tracer could not name the loop's dtype or the out
+             \* array's dtype: strings, datetimes, objects, dask or Quantity containers)
+             ELSE IF r.err = "UFuncTypeError" \/ e.result = "UFuncTypeError"
+                  THEN IF r.err # "UFuncTypeError" /\ \E k \in 1..Len(e.outs) :
+                            e.outs[k] # 0 /\ (e.rk[k] = "-" \/ h[e.outs[k]].dk = "-")
+                       THEN {}
+                       ELSE Ok(r.err = "UFuncTypeError" /\ e.result = "UFuncTypeError", "casting")
              ELSE IF \E k \in 1..Len(r.res) : r.res[k].how = "refuse"
                   THEN Ok(e.result = "ValueError", "contract")
                   ELSE Ok(e.result = "ok", "contract")
